@@ -66,6 +66,7 @@ func init() {
 	// after such a token is what later ranges are computed from
 	register("c04.errlocs", func(line string) string { return lexLegW(line, true) })
 	register("c03.lex", lexLeg)
+	register("c03.escape", lexLeg) // string literals made of escape sequences; same observable
 	register("c04.toks", lexLeg) // C04 looks at the same token stream (ranges vs. the LSP reading of the text)
 	// C04: the Locs of every name-bearing AST node (what definition / references / rename / symbols forward)
 	register("c04.names", func(line string) string { return parseObservable(unhex(strings.Fields(line)[0])) })
